@@ -144,10 +144,21 @@ def probe_monver(cls):
     return True
 
 
+REFLECT_FALLBACK = []
+
+
+def pinned_dynamic():
+    import json
+    import os
+    with open(os.path.join(os.path.dirname(os.path.abspath(__file__)), 'pinned_dynamic_kinds.json')) as fh:
+        return json.load(fh)
+
+
 def message_table():
     """name -> dict(cls, cid, NAME, kind, kindspec (driver token), layouts...)"""
     from ubxlib.frame import UbxFrame
     table = {}
+    del REFLECT_FALLBACK[:]
     for n, cls in sorted(all_frame_classes().items()):
         entry = {'cls': cls, 'cid': (cls.CID.cls, cls.CID.id), 'NAME': cls.NAME, 'pyname': n}
         try:
@@ -174,9 +185,18 @@ def message_table():
                     continue
             except Exception:
                 pass
-            hdr, cname, maxc, tmpl = probe_counted(cls)
-            entry.update(kind='counted', hdr=hdr, count=cname, maxc=maxc, blk=tmpl,
-                         kindspec=f'K/{layout_str(hdr)}/{cname}/{maxc if maxc is not None else "-"}/{layout_str(tmpl)}')
+            try:
+                hdr, cname, maxc, tmpl = probe_counted(cls)
+                entry.update(kind='counted', hdr=hdr, count=cname, maxc=maxc, blk=tmpl,
+                             kindspec=f'K/{layout_str(hdr)}/{cname}/{maxc if maxc is not None else "-"}/{layout_str(tmpl)}')
+            except Exception as e:      # noqa
+                # the probing does not recognise how this class builds its field list any more: Tie B is unavailable for
+                # it; fall back to the shape it has on the pinned tree, so that Tie A still compares every decode with it
+                pin = pinned_dynamic().get(n)
+                if pin is None:
+                    raise
+                entry.update({k: ([tuple(x) for x in v] if isinstance(v, list) else v) for k, v in pin.items()})
+                REFLECT_FALLBACK.append(f'{n}: {type(e).__name__}: {e}')
         table[n] = entry
     return table
 
